@@ -149,6 +149,8 @@ def layouts(src, mode, tier):
         yield 'par', f'({src})'
         yield 'ml', f'(\n {src}\n)'
         yield 'cmt', f'( # c\n {src} # d\n)'
+        yield 'cont', f'\\\n  {src}'          # the source of the operand starts with a line continuation, the node stands indented
+        yield 'contml', f'\\\n  \\\n   (\n{src}\n   )  '
 
 
 def leaves(src):
@@ -194,7 +196,7 @@ def check(fst, wi, lay, lsrc, target, form, copy, res):
     src, mode = WITNESSES[wi]
     cid = f'C19/w{wi}:{src!r}/{lay}/->{target}/{form}/copy={copy}'
     rep = {'wi': wi, 'lay': lay, 'lsrc': lsrc, 'target': target, 'form': form, 'copy': copy}
-    params = {'target': target, 'form': form, 'mode': mode}
+    params = {'target': target, 'form': form, 'mode': mode, 'layout': lay}
     res.evals += 1
     res.transitions += 1
     try:
